@@ -196,6 +196,7 @@ impl Q {
 }
 
 // ---- errors (R-ERR)
+#[derive(Debug)]
 pub struct VErr;
 pub type AResult<T> = Result<T, VErr>;
 
